@@ -481,7 +481,9 @@ def handleMerge (req : Json) : Except String Json := do
     | _ => false
   let render ← decRender (req.getObjValD "render") builtin
   let E : Merge.Env := { O := O, cfg := cfg, S := S, render := render }
-  pure (reply (Merge.decideMerge E base ld rd) (fun ds => .arr (ds.map encMD).toArray))
+  match req.getObjVal? "want" with
+  | .ok (.str "disjoint") => pure (Json.mkObj [("ok", .bool (Merge.disjoint S base ld rd))])
+  | _ => pure (reply (Merge.decideMerge E base ld rd) (fun ds => .arr (ds.map encMD).toArray))
 
 def handle (req : Json) : Except String Json := do
   let cmd ← req.getObjValAs? String "cmd"
